@@ -15,9 +15,66 @@ CUTS = {}            # reason -> count of paths cut as outside the model/claim
 NOTES = []           # free-form notes a harness wants in the evidence
 
 
+_HOISTED = []        # [object, snapshot or None]
+
+
+def hoist(obj):
+    """Register an object (an interpreter) that is built once per process and reused by every explored path.  Its attribute
+    dictionary is brought back to the state it had when the first path started at the start of every later path: containers
+    (dict / list / set / deque attributes: parse cache, compiled cache, and any cache a changed klongpy adds) get their
+    first-path contents back IN PLACE, other attributes are re-assigned, new attributes are removed.  Without this a cache
+    inside the code under test would carry entries from one explored path into the next, and a counterexample found that way
+    could not be replayed in a fresh process.  (The scope stack is an object of its own and is reset by the harnesses.)"""
+    _HOISTED.append([obj, None])
+    return obj
+
+
+def _snap(v):
+    import collections
+    if isinstance(v, dict):
+        return ("dict", dict(v))
+    if isinstance(v, list):
+        return ("list", list(v))
+    if isinstance(v, set):
+        return ("set", set(v))
+    if isinstance(v, collections.deque):
+        return ("deque", list(v))
+    return ("ref", v)
+
+
+def _restore_hoisted():
+    for ent in _HOISTED:
+        obj, snap = ent
+        d = obj.__dict__
+        if snap is None:
+            ent[1] = {k: _snap(v) for k, v in d.items()}
+            continue
+        for k in [k for k in d if k not in snap]:
+            del d[k]
+        for k, (kind, v0) in snap.items():
+            cur = d.get(k)
+            if kind == "dict" and isinstance(cur, dict):
+                cur.clear(); cur.update(v0)
+            elif kind == "list" and isinstance(cur, list):
+                cur[:] = v0
+            elif kind == "set" and isinstance(cur, set):
+                cur.clear(); cur.update(v0)
+            elif kind == "deque" and hasattr(cur, "extend") and hasattr(cur, "clear") and not isinstance(cur, (list, dict, set)):
+                cur.clear(); cur.extend(v0)
+            else:
+                d[k] = v0 if kind == "ref" else {"dict": dict, "list": list, "set": set, "deque": list}[kind](v0)
+
+
 def enter():
     """Call at the top of every harness body."""
     PATHS[0] += 1
+    if _HOISTED:
+        if MODE == "sym":
+            from crosshair.core import NoTracing
+            with NoTracing():
+                _restore_hoisted()
+        else:
+            _restore_hoisted()
 
 
 def verdict(ok):
